@@ -113,7 +113,11 @@ def correspondence(ctx, violations, known_hits):
            "lonely halt\nbr lonely\n", "a1 halt\na2 add r0\n", "br a1\nhalt\n", "start .orig x3000\n", "br start\nhalt\n", "halt\n"]
     if ctx.tier != "quick":
         seq = seq + [t for t in pool if isinstance(t, str)][:40]
-    watch = C07.drive_watch(ctx, ctx.cli(), [], [], violations, seq=seq, feat=0)
+    # versions written in the stack extension's mnemonics, watched without and with `-f stack`: a re-check answers what a
+    # fresh `lace check` under the same flag answers (diagnostic `stack extension not enabled` / success), whichever thread runs it
+    watch = C07.drive_watch(ctx, ctx.cli(), [], [], violations, seq=seq + C07.STACK_SEQ[:4] + ["halt\n"], feat=0)
+    watch1 = C07.drive_watch(ctx, ctx.cli(), [], [], violations, seq=C07.STACK_SEQ + seq[:4], feat=1)
+    watch = {"without_flag": watch, "with_stack_flag": watch1, "rechecks": watch["rechecks"] + watch1["rechecks"]}
     rep = repeated_processes(ctx, violations)
     ctx.cleanup()
     return {
